@@ -94,6 +94,7 @@ type Target struct {
 	proxyHandler http.Handler
 
 	state        TargetState
+	healthState  TargetState // while draining: the state health checks have arrived at, restored when the drain ends
 	inflight     inflightMap
 	inflightLock sync.Mutex
 
@@ -175,11 +176,10 @@ func (t *Target) SendRequest(w http.ResponseWriter, req *http.Request) {
 }
 
 func (t *Target) Drain(timeout time.Duration) {
-	originalState := t.updateState(TargetStateDraining)
-	if originalState == TargetStateDraining {
+	if !t.beginDrain() {
 		return
 	}
-	defer t.updateState(originalState)
+	defer t.endDrain()
 
 	deadline := time.After(timeout)
 	toCancel := t.pendingRequestsToCancel()
@@ -203,6 +203,31 @@ WAIT_FOR_REQUESTS_TO_COMPLETE:
 	// Cancel any remaining requests.
 	for _, inflight := range toCancel {
 		inflight.cancel(ErrorDraining)
+	}
+}
+
+func (t *Target) beginDrain() bool {
+	t.inflightLock.Lock()
+	defer t.inflightLock.Unlock()
+
+	if t.state == TargetStateDraining {
+		return false
+	}
+
+	t.healthState = t.state
+	t.state = TargetStateDraining
+	return true
+}
+
+func (t *Target) endDrain() {
+	t.withInflightLock(func() {
+		t.state = t.healthState
+	})
+
+	// Health checks that completed during the drain may have changed what the
+	// target goes back to; let the load balancer take it from there.
+	if t.stateConsumer != nil {
+		t.stateConsumer.TargetStateChanged(t)
 	}
 }
 
@@ -242,24 +267,30 @@ func (t *Target) HealthCheckCompleted(success bool) {
 	becameHealthy := false
 
 	t.withInflightLock(func() {
-		previousState = t.state
+		// While the target is being drained, health check results are applied to
+		// the state the drain will restore, not to the draining state itself.
+		state := &t.state
+		if t.state == TargetStateDraining {
+			state = &t.healthState
+		}
+		previousState = *state
 
 		switch success {
 		case true:
-			switch t.state {
+			switch *state {
 			case TargetStateAdding:
-				t.state = TargetStateHealthy
+				*state = TargetStateHealthy
 				becameHealthy = true
 			default:
-				t.state = TargetStateHealthy
+				*state = TargetStateHealthy
 			}
 		case false:
-			switch t.state {
+			switch *state {
 			case TargetStateHealthy:
-				t.state = TargetStateUnhealthy
+				*state = TargetStateUnhealthy
 			}
 		}
-		newState = t.state
+		newState = *state
 	})
 
 	if newState != previousState {
